@@ -166,6 +166,18 @@ pub fn run(path: &str, out_dir: &str, n: i64) -> Result<Value, String> {
             }
             // a COUNT on a cycle that shows a number instead of #CIRC! is one root cause: the cells that read it
             // differ as a consequence and are not reported separately
+            // values that are wrong only until the next evaluation: a formula evaluated before the spill it reads
+            // existed (the spill cell is created later in the same pass); one class, whatever the edit was
+            if !step_mism.is_empty() && !step_mism.iter().any(|m| content.get(&m.0).map(|x| x["k"] == "count").unwrap_or(false)) {
+                um.evaluate();
+                let healed = step_mism.iter().all(|m| matches(&st["shown"][(m.0 - 1) as usize], &shown(&um, n, m.0)) != Some(false));
+                let reads_spill = st["owner"].as_array().map(|a| a.iter().any(|o| o.as_i64().unwrap_or(0) != 0)).unwrap_or(false);
+                if healed && reads_spill {
+                    let m = &step_mism[0];
+                    rep.mismatch("C07", "stale-until-next-evaluation", "formula-reads-new-spill", json!({"program": program, "cell": m.0}), format!("{}; right after one more evaluate()", m.3));
+                    break;
+                }
+            }
             if let Some(root) = step_mism.iter().find(|m| content.get(&m.0).map(|x| x["k"] == "count").unwrap_or(false)) {
                 rep.mismatch("C05", &root.2, "count-on-cycle", json!({"program": program, "cell": root.0}), root.3.clone());
             } else {
